@@ -356,6 +356,10 @@ func runTriple(t *rapid.T, e serverEntry, tr triple) string {
 				masked++
 			}
 			hist = append(hist, fmt.Sprintf("get mask=%s", lib.MaskString(mask)))
+			// one coherent register: reading it, with whatever mask, does not change what the next Get returns
+			if again := get(nil); !proto.Equal(again, full) {
+				fail("%s returned %s, then a %s with read mask %s was made, and now %s returns %s (no Update in between)", tr.get.Name(), txt(full), tr.get.Name(), lib.MaskString(mask), tr.get.Name(), txt(again))
+			}
 		case "pull":
 			if len(streams) >= 2 {
 				continue
